@@ -7,6 +7,7 @@ attribute names and all flag combinations) is interpreted against the real World
 """
 from __future__ import annotations
 
+import itertools
 import warnings
 
 from mvf import core, reftime
@@ -26,7 +27,10 @@ RULE = ("Hypothesis-generated programs of scenario-API calls (<= 14 operations: 
         "slots, reject/accept cycles according to the accepted flows only, and entity_graph edges only from "
         "accepted pairs. Behavioural group scoping: a weak loop in one group and an observer in the same / nested / "
         "sibling / cousin / other-depth group, all observer kinds, several schedules; the history monitor with the "
-        "reference group semantics decides whose sub-steps the observer may follow. non-trivial = a connect call "
+        "reference group semantics decides whose sub-steps the observer may follow. Differential (metamorphic): a "
+        "program containing calls with valid and invalid pairs must run exactly like the same program without the "
+        "invalid pairs (same outcome, same per-simulator sequence of (time, inputs)); complete table of such calls "
+        "with a destination that steps by itself or only when triggered. non-trivial = a connect call "
         "with >= 1 invalid and >= 1 valid pair, or simulators in different groups, or a scoping run with sub-steps; "
         "distinct = distinct programs / scenarios")
 ASSUMPTIONS = [
@@ -72,6 +76,9 @@ class Interp:
         self.edges = []          # (src, dst, kind) for the cycle oracle
         self.pairs_touched = set()
         self.graph_edges = set()
+        self.clean_ops = []
+        self.slot_feeds = {}     # (src entity, dst entity, dst attr) -> source attrs (two of them collide in one dict key)
+        self.final = None
         self.fails = []
         self.stats = dict(mixed_calls=0, cross_group=0, rejected_calls=0, accepted_calls=0)
 
@@ -87,6 +94,8 @@ class Interp:
     def op(self, o):
         from mosaik.exceptions import ScenarioError
         k = o[0]
+        if k != "connect":
+            self.clean_ops.append(o)
         if k == "enter":
             if len(self.path) >= 2:
                 return
@@ -112,7 +121,9 @@ class Interp:
             sid = f"S{len(self.sims)}"
             meta = {"api_version": "3.0", "type": typ, "models": {"M": desc}}
             ents = None
-            if len(o) > 3 and o[3]:
+            if len(o) > 3 and o[3] and o[3].get("no_self_step") and typ != "time-based":
+                meta["mvf_no_self_step"] = True      # steps only when triggered (after the first step of a hybrid one)
+            if len(o) > 3 and o[3] and "desc" in o[3]:
                 # hierarchical entities: a second model N and children of mixed types [N, M] / [M, N]
                 desc2, order = o[3]["desc"], o[3]["order"]
                 masks2 = classify(typ, desc2)
@@ -171,6 +182,11 @@ class Interp:
                 kw["initial_data"] = init
             if asyncr:
                 kw["async_requests"] = True
+            # the same call without the invalid pairs (for the differential at the end)
+            good = [list(p_) for p_ in pairs if p_ not in bad]
+            if good or asyncr:
+                o2 = [o[0], o[1], o[2], good, dict(o[4], **{"async": asyncr})]
+                self.clean_ops.append(o2)
             raised = None
             try:
                 self.w.connect(src["ent"], dst["ent"], *pairs, **kw)
@@ -209,6 +225,8 @@ class Interp:
                 self.graph_edges.add(frozenset((src["ent"].full_id, dst["ent"].full_id)))
             for sa, da in pairs:
                 self.pairs_touched.add((src["sid"], sa, dst["sid"], da))
+                if (sa, da) not in bad:
+                    self.slot_feeds.setdefault((src["ent"].full_id, dst["ent"].full_id, da), set()).add(sa)
 
     def finish(self, until):
         """run the world: cycle verdict, values on slots, entity graph"""
@@ -240,8 +258,9 @@ class Interp:
             outcome, msg = "error", f"AssertionError: {e}"
         except Exception as e:  # noqa
             outcome, msg = "error", f"{type(e).__name__}: {e}"
+        self.final = (outcome, [(r[0], r[2], r[3]) for r in simple_sim.LOG if r[1] == "step"])
         if outcome == "error":
-            return                # runtime failures are C05's business
+            return                # runtime failures are C05's business (but see the differential in check_case_api)
         if outcome == "rejected" and not unres:
             self.fails.append(Failure("C11.leftover_cycle", "C11.leftover_cycle",
                                       f"run() reports a cycle ({msg[:200]}) although the accepted data-flows {self.edges} have "
@@ -298,6 +317,30 @@ def check_case_api(case, acc):
         it.finish(case.get("until", 3))
     finally:
         it.close()
+    # differential: "a rejected attribute pair leaves no data-flow behind" and the accepted pairs of the same call
+    # are ordinary data-flows: the program must behave exactly like the same program without the invalid pairs
+    ambiguous = any(len(v) > 1 for v in it.slot_feeds.values())   # which value wins depends on set order
+    if it.stats["mixed_calls"] > 0 and it.final is not None and not ambiguous:
+        it2 = Interp()
+        try:
+            for o in it.clean_ops:
+                it2.op(o)
+            it2.finish(case.get("until", 3))
+        finally:
+            it2.close()
+        if it2.final is not None and it2.stats["rejected_calls"] == 0:
+            a, b = it.final, it2.final
+            # per simulator (the interleaving of different simulators is not part of the contract)
+
+            def per_sim(steps):
+                d = {}
+                for sid, t, inp in steps:
+                    d.setdefault(sid, []).append((t, inp))
+                return core.jnorm(d)
+            if a[0] != b[0] or per_sim(a[1]) != per_sim(b[1]):
+                it.fails.append(Failure("C11.partial_connect_differs", f"C11.partial_connect_differs|{a[0]}_vs_{b[0]}",
+                                        f"a program with rejected pairs ends with {a[0]} ({len(a[1])} steps), the same "
+                                        f"program without the invalid pairs with {b[0]} ({len(b[1])} steps)"))
     nontrivial = it.stats["mixed_calls"] > 0 or it.stats["cross_group"] > 0
     cls = [k for k, v in it.stats.items() if v]
     acc.record(case, nontrivial, cls)
@@ -324,6 +367,27 @@ def table_programs():
                             ops = []
                             ops += placement_ops(pa, pb, desc)
                             ops.append(["connect", 0, 1, [[sa, da]], {"shift": shift, "weak": weak, "init": list(init)}])
+                            yield {"ops": ops, "until": 4}
+
+
+def mixed_programs():
+    """complete table of calls with one valid and one invalid pair (both orders), for the differential against the
+    same program without the invalid pair: the destination steps by itself or only when triggered"""
+    places = [((), ()), ((0,), (0,)), ((0,), ()), ((0,), (1,)), ((0, 0), (0,))]
+    desc = describe("hybrid", ["a", "b", "c"], ["b"], ["c"], False)
+    for pa, pb in places:
+        for no_self in (False, True):
+            for good in (["a", "a"], ["a", "b"], ["c", "b"], ["c", "a"]):
+                for badp in (["q", "a"], ["a", "q"], ["q", "b"]):
+                    for order in (0, 1):
+                        for shift in (0, 1):
+                            ops = placement_ops(pa, pb, desc)
+                            if no_self:
+                                last = max(i for i, o_ in enumerate(ops) if o_[0] == "start")
+                                ops[last] = ops[last] + [{"no_self_step": True}]
+                            pairs = [good, badp] if order == 0 else [badp, good]
+                            ops.append(["connect", 0, 1, pairs, {"shift": shift, "weak": False,
+                                                                 "init": [good[0]] if shift else []}])
                             yield {"ops": ops, "until": 4}
 
 
@@ -433,7 +497,7 @@ def shards(tier, seed):
 def shard(prop, tier, seed, shard, nshards):
     from hypothesis import strategies as st
     acc = core.Acc(PROP, budget_s=200 if tier == "quick" else 1500)
-    for i, case in enumerate(table_programs()):
+    for i, case in enumerate(itertools.chain(table_programs(), mixed_programs())):
         if i % nshards != shard or acc.out_of_time():
             continue
         for f in check_case(case, acc):
@@ -462,11 +526,16 @@ def shard(prop, tier, seed, shard, nshards):
         trig = draw(st.one_of(st.none(), sub)) if typ == "hybrid" else None
         nonp = draw(st.one_of(st.none(), sub)) if typ == "hybrid" else None
         op_ = ["start", typ, describe(typ, attrs, trig, nonp, draw(st.integers(0, 5)) == 0)]
+        opts = {}
         if draw(st.integers(0, 2)) == 0:
             attrs2 = draw(st.one_of(st.just(["a"]), st.just(["b", "c"]), sub))
-            op_.append({"desc": describe(typ, attrs2, None if typ != "hybrid" else draw(st.one_of(st.none(), sub)),
-                                         None, False),
-                        "order": draw(st.sampled_from([["N", "M"], ["M", "N"], ["N"], ["N", "N", "M"]]))})
+            opts = {"desc": describe(typ, attrs2, None if typ != "hybrid" else draw(st.one_of(st.none(), sub)),
+                                     None, False),
+                    "order": draw(st.sampled_from([["N", "M"], ["M", "N"], ["N"], ["N", "N", "M"]]))}
+        if typ != "time-based" and draw(st.integers(0, 2)) == 0:
+            opts["no_self_step"] = True
+        if opts:
+            op_.append(opts)
         return op_
 
     @st.composite
@@ -480,5 +549,5 @@ def shard(prop, tier, seed, shard, nshards):
     op = st.one_of(st.just(["enter"]), st.just(["leave"]), start_op(), start_op(), connect_op(), connect_op(),
                    connect_op())
     prog = st.lists(op, min_size=2, max_size=14).map(lambda ops: {"ops": ops, "until": 3})
-    core.drive(prog, check_case, acc, 150 if tier == "quick" else 5000, seed * 1000 + shard)
+    core.drive(prog, check_case, acc, 400 if tier == "quick" else 5000, seed * 1000 + shard)
     return acc
